@@ -27,6 +27,8 @@ type Pool struct {
 	Crashes  atomic.Int64
 	// Recycle: restart a worker after this many cases (0 = never)
 	Recycle int
+	// PathPrefix: extra directories in front of the workers' private PATH
+	PathPrefix string
 }
 
 type child struct {
@@ -50,7 +52,7 @@ func (p *Pool) spawn(slot int) (*child, error) {
 	c := &child{dir: dir, cap: filepath.Join(dir, "capture.txt")}
 	cmd := exec.Command(p.Bin)
 	cmd.Env = append([]string{
-		"PATH=" + filepath.Join(verifRoot, "bin", "helpers"),
+		"PATH=" + p.PathPrefix + filepath.Join(verifRoot, "bin", "helpers"),
 		"HOME=" + filepath.Join(dir, "home"),
 		"TMPDIR=" + filepath.Join(dir, "tmp"),
 		"VERIF_WORKDIR=" + filepath.Join(dir, "cwd"),
